@@ -27,7 +27,8 @@ EXPLANATION = (
     " (R10) the S3 listing walks every page; (R11) ages derived from LastModified use UTC-aware clocks; (R12) S3FileStream.read is a faithful pipe (no handler turns an error into a short read); (R13) every PUT body is a bytes value. R3's retry loop is decided by simulating retry_with_backoff on 'every attempt fails' for max_retries = 1 and 2 (for/while, 0- or 1-based counters, helpers analysed in place); R6 accepts any arithmetic shape of the guard / clamp whose linear form implies pos < size and last <= size - 1; function values are followed through partial / lambda / factory returns / later-added per-key methods."
     ' (R14) a retried operation is restartable: the function handed to with_s3_retry mutates nothing it captured.'
     " (R15) an S3 operation answers with what the store said: exists() -> True exactly after a successful HEAD, read-type results derive from the response, seek dispatch by scenario. R2: the re-raise sits on the non-404 side; R3: the retry layer returns the operation's result; R6: strict `pos >= size` guard; R11 is interprocedural; R1 tolerates trailing optional parameters."
-    ' R2 reads table-driven error classification and exception factories.')
+    ' R2 reads table-driven error classification and exception factories.'
+    " R9 also lists a key whose table prefix recurs inside the key (prefix 'data', key 'data/data/x.parquet').")
 NOT_DECIDED = "operation-sequence equivalence of the two backends at run time; S3's own consistency"
 
 SB = "storage_backend"
@@ -141,8 +142,9 @@ def r8_work(ctx: Ctx, rid: str = "C20.R8") -> None:
                     body = edge_target(g, lp, "true")
                     w = find_path(g, body, [lp.id], avoid=[a.id], labels=NORMAL) if body is not None and body != a.id else None
                     lst = dotted(a.ast.func.value)  # type: ignore[union-attr]
-                    returned = any(r.ast is not None and r.ast.value is not None and lst in names_in(r.ast.value)  # type: ignore[union-attr]
-                                   for r in g.nodes if r.kind == "return")
+                    returned = any(r.ast is not None and r.ast.value is not None and (  # type: ignore[union-attr]
+                        lst in names_in(r.ast.value) or lst in ctx.slicer(f).origins(r.ast.value, r.id)["names"])  # type: ignore[union-attr]
+                                   for r in g.nodes if r.kind == "return")  # (directly, or through a helper analysed in place)
                     ctx.ob(rid, f, "listing keeps every entry", a, w is None and returned,
                            "every listed object reaches the result" if w is None and returned else
                            "an entry can be skipped (or the list is not what is returned): recovery and the collector act on a "
@@ -200,12 +202,31 @@ def r9_key_roundtrip(ctx: Ctx, rid: str = "C20.R9") -> None:
             fg = ctx.cfg(f)
             apps = [n for n in fg.calls() if isinstance(n.ast, ast.Call) and isinstance(n.ast.func, ast.Attribute) and n.ast.func.attr == "append"
                     and any(fr.kind == "loop" for fr in n.frames)]
+            def _is_result(lst: Optional[str]) -> bool:
+                """the list appended to IS what the scope returns (as it is, or through list / sorted / tuple, or as the result of
+                a helper analysed in place) - an intermediate list that is transformed further is not the listing"""
+                def names_of(v: Optional[ast.AST], depth: int = 0) -> Set[str]:
+                    if v is None or depth > 4:
+                        return set()
+                    if isinstance(v, ast.Name):
+                        return {v.id}
+                    if isinstance(v, ast.Call) and id(v) in fg.inline_returns:
+                        out: Set[str] = set()
+                        for e_, _n in fg.inline_returns[id(v)]:
+                            out |= names_of(e_, depth + 1)
+                        return out
+                    if isinstance(v, ast.Call) and dotted(v.func) in ("list", "sorted", "tuple") and len(v.args) == 1:
+                        return names_of(v.args[0], depth + 1)
+                    return set()
+                rets_ = [r for r in fg.nodes if r.kind == "return" and r.ast is not None and r.ast.value is not None]  # type: ignore[union-attr]
+                return lst is not None and any(lst in names_of(r.ast.value) for r in rets_)  # type: ignore[union-attr]
+
             for a in apps:
                 inner = [fr.node for fr in a.frames if fr.kind == "loop"][-1]
                 lp = next(n for n in fg.nodes if n.kind == "loop" and n.ast is inner)
                 body = edge_target(fg, lp, "true")
                 tgt = lp.ast.target  # type: ignore[union-attr]
-                if body is None or not isinstance(tgt, ast.Name):
+                if body is None or not isinstance(tgt, ast.Name) or not _is_result(dotted(a.ast.func.value)):  # type: ignore[union-attr]
                     continue
                 # the loop variable is the listed object: obj["Key"] is the key under study
                 scen0 = {"self.prefix": prefix, tgt.id: {"Key": want}}
